@@ -98,6 +98,9 @@ SolarisNames(c) == IF Len(c) = 4 /\ c[2] = 0 /\ c[3] = 0 /\ c[4] = 96
                    ELSE {}
 AllSolarisNames == UNION {SolarisDT[i][2] : i \in 1..Len(SolarisDT)}
 
+\* the registry families DtNamesOf consults (a module that instantiates the registry binds them once:
+\* ByCode == TLCEval([k \in DtKeys |-> RegByCode[k]]) - the registry record itself is re-evaluated at every use)
+DtKeys == {"DT_BASE", "DT_MIPS", "DT_AARCH64", "DT_PPC", "DT_PPC64", "DT_SPARC", "DT_RISCV", "DT_ALPHA", "DT_IA_64", "DT_HEX", "DT_NIOS2"}
 PairLookup(pairs, c) == LET hits == {i \in 1..Len(pairs) : pairs[i][1] = c} IN
                         IF hits = {} THEN {} ELSE pairs[CHOOSE i \in hits : TRUE][2]
 FamLookup(byCode, key, c) == IF key \in DOMAIN byCode THEN PairLookup(byCode[key], c) ELSE {}
